@@ -10,7 +10,9 @@ package c06
 //	C06:hit-with-missing-blob:<what>@<class>[:beyond-first-20]:<backend|nobackend>
 //	    what = absent | size-mismatch | evicted; class = file | tree-blob |
 //	    tree-root-file | tree-child-file | stdout | stderr; also
-//	    nothing-stored, random-subset, size-mismatch-held-by-backend[@tree-blob]
+//	    nothing-stored, random-subset, size-mismatch-held-by-backend[@tree-blob];
+//	    over-proxy-limit@<class>: held by the backend only and larger than
+//	    max_proxy_blob_size (worlds ".../proxy-limit-<n>")
 //	C06:hit-with-missing-blob:intermittent:backend   (the hit does not repeat)
 //	C06:miss-with-all-present:<plan>:<be>  C06:error-with-all-present:<plan>:<be>
 //	C06:error-on-absence:<what>@<class>:<be>  C06:partial-result:<plan>:<be>
@@ -50,6 +52,7 @@ type world struct {
 	fp      *lib.FakeProxy // nil: no backend
 	storage string
 	cfg     string // e.g. "zstd/go/backend"
+	limit   int64  // max_proxy_blob_size (0: unlimited)
 
 	mu      sync.Mutex
 	backend map[string]int64 // CAS hash -> logical size the harness put into the backend
@@ -64,8 +67,14 @@ func (w *world) beLabel() string {
 }
 
 func newWorld(r *lib.Run, storage, impl string, backend bool, maxSize int64, dir string) (*world, error) {
-	w := &world{r: r, storage: storage, backend: map[string]int64{}}
-	o := lib.ServerOpts{MaxSize: maxSize, Storage: storage, ZstdImpl: impl, Dir: dir}
+	return newLimitedWorld(r, storage, impl, backend, maxSize, dir, 0)
+}
+
+// newLimitedWorld: limit > 0 sets max_proxy_blob_size: larger blobs are
+// neither fetched from nor looked up in (nor written through to) the backend.
+func newLimitedWorld(r *lib.Run, storage, impl string, backend bool, maxSize int64, dir string, limit int64) (*world, error) {
+	w := &world{r: r, storage: storage, backend: map[string]int64{}, limit: limit}
+	o := lib.ServerOpts{MaxSize: maxSize, Storage: storage, ZstdImpl: impl, Dir: dir, MaxProxyBlobSize: limit}
 	if backend {
 		w.fp = lib.NewFakeProxy(storage == "zstd")
 		o.Proxy = w.fp
@@ -76,6 +85,9 @@ func newWorld(r *lib.Run, storage, impl string, backend bool, maxSize int64, dir
 	}
 	w.srv = srv
 	w.cfg = storage + "/" + impl + "/" + w.beLabel()
+	if limit > 0 {
+		w.cfg += fmt.Sprintf("/proxy-limit-%d", limit)
+	}
 	return w, nil
 }
 
@@ -325,6 +337,7 @@ type absentee struct {
 	need
 	LocalSize   *int64 `json:"local_size_of_hash,omitempty"`
 	BackendSize *int64 `json:"backend_size_of_hash,omitempty"`
+	OverLimit   bool   `json:"backend_only_and_over_max_proxy_blob_size,omitempty"`
 }
 
 // expectation evaluates the statement on the observed state: hit iff every
@@ -355,11 +368,16 @@ func (w *world) expectation(in *instance) (hit bool, missing []absentee) {
 			if ok && !w.fp.Has(cache.CAS, n.Hash) {
 				ok = false
 			}
-			if ok && sz == n.Stated {
+			if ok && sz == n.Stated && (w.limit <= 0 || n.Stated <= w.limit) {
 				continue
 			}
 			if ok {
 				a.BackendSize = &sz
+				if sz == n.Stated {
+					// held by the backend with the stated size, but larger than
+					// max_proxy_blob_size: this server cannot obtain it there
+					a.OverLimit = true
+				}
 			}
 		}
 		missing = append(missing, a)
@@ -418,6 +436,9 @@ func (w *world) judge(in *instance, ci *caseInfo, q string, jsonAccept bool) (st
 	culprit := ci.culprit
 	if !expHit && culprit == "" {
 		culprit = "absent@" + missing[0].Class
+		if missing[0].OverLimit {
+			culprit = "over-proxy-limit@" + missing[0].Class
+		}
 	}
 	be := w.beLabel()
 	switch {
@@ -592,16 +613,49 @@ func plansFor(probe *instance, backend bool, rng *rand.Rand, quick bool) []plan 
 	return ps
 }
 
+// limitPlansFor enumerates the presence plans for one shape in a world with
+// max_proxy_blob_size set: at every structural position a blob held by the
+// backend only that is larger than the limit (not obtainable: miss); exactly
+// at the limit (hit); larger than the limit but held locally (hit).
+func limitPlansFor(probe *instance, rng *rand.Rand, quick bool) []plan {
+	ps := []plan{{name: "all-local", target: -1}, {name: "mixed-present", target: -1}, {name: "all-backend", target: -1}}
+	ts := targets(probe, rng)
+	for _, t := range ts {
+		ps = append(ps, plan{name: "over-limit-backend", target: t.target, label: t.label})
+	}
+	for k, t := range ts {
+		if !quick || k%2 == rng.IntN(2) || probe.refs[t.target].Class != clsFile {
+			ps = append(ps, plan{name: "at-limit-backend", target: t.target, label: t.label})
+		}
+		if !quick || rng.IntN(3) == 0 {
+			ps = append(ps, plan{name: "over-limit-local", target: t.target, label: t.label})
+		}
+	}
+	if len(ts) > 0 {
+		t := ts[rng.IntN(len(ts))]
+		ps = append(ps, plan{name: "over-limit-both", target: t.target, label: t.label})
+		t = ts[rng.IntN(len(ts))]
+		ps = append(ps, plan{name: "mixed-one-missing", target: t.target, label: t.label})
+	}
+	return ps
+}
+
 // place decides where each distinct blob goes.
-func place(in *instance, p plan, backend bool, rng *rand.Rand) map[string]int {
+func place(in *instance, p plan, backend bool, limit int64, rng *rand.Rand) map[string]int {
 	pl := map[string]int{}
+	var cur ref
 	present := func() int {
 		if !backend {
 			return plLocal
 		}
-		return []int{plLocal, plLocal, plBackend, plBackend, plBoth}[rng.IntN(5)]
+		v := []int{plLocal, plLocal, plBackend, plBackend, plBoth}[rng.IntN(5)]
+		if limit > 0 && cur.Size > limit && v == plBackend {
+			v = plLocal // "present" for this server means obtainable: over the proxy limit only local counts
+		}
+		return v
 	}
 	for i, r := range in.refs {
+		cur = r
 		if r.Empty {
 			continue
 		}
@@ -618,6 +672,11 @@ func place(in *instance, p plan, backend bool, rng *rand.Rand) map[string]int {
 			v = plBackend
 		case "mixed-present", "mixed-one-missing", "backend-ac-all-present", "backend-ac-one-missing":
 			v = present()
+		case "over-limit-backend", "at-limit-backend", "over-limit-local", "over-limit-both":
+			v = present()
+			if i == p.target {
+				v = map[string]int{"over-limit-backend": plBackend, "at-limit-backend": plBackend, "over-limit-local": plLocal, "over-limit-both": plBoth}[p.name]
+			}
 		case "one-mismatch-backend":
 			v = present()
 			if i == p.target {
@@ -675,12 +734,40 @@ func (w *world) runJob(j job) {
 	if j.plan.name == "one-mismatch" || j.plan.name == "one-mismatch-backend" {
 		mis = j.plan.target
 	}
-	in := build(j.shape, tag, rng, mis)
+	// plans about max_proxy_blob_size fix the size of the target blob: one
+	// byte (or more) over the limit, or exactly at it
+	var ov map[int]int
+	wantSize := int64(-1)
+	switch j.plan.name {
+	case "over-limit-backend", "over-limit-local", "over-limit-both":
+		wantSize = w.limit + 1
+		if rng.IntN(2) == 0 {
+			wantSize += rng.Int64N(w.limit/2 + 1)
+		}
+	case "at-limit-backend":
+		wantSize = w.limit
+	}
+	if wantSize >= 0 {
+		ov = map[int]int{j.plan.target: int(wantSize)}
+	}
+	in := build(j.shape, tag, rng, mis, ov)
 	if err := in.selfCheck(); err != nil {
 		r.Inconclusive(err.Error())
 		return
 	}
-	pl := place(in, j.plan, w.hasBackend(), rng)
+	if wantSize >= 0 {
+		got := in.refs[j.plan.target].Size
+		if j.plan.name == "at-limit-backend" && got != wantSize {
+			// a Tree blob that is naturally larger than the limit cannot be shrunk to it
+			r.Count(fmt.Sprintf("limit.%d.skipped.at-limit-not-reachable.%s", w.limit, in.refs[j.plan.target].Class))
+			return
+		}
+		if j.plan.name != "at-limit-backend" && got <= w.limit {
+			r.Inconclusive(fmt.Sprintf("harness: blob of %d bytes built for plan %s with limit %d in %s", got, j.plan.name, w.limit, tag))
+			return
+		}
+	}
+	pl := place(in, j.plan, w.hasBackend(), w.limit, rng)
 	ci := &caseInfo{ID: tag, Cfg: w.cfg, Shape: j.shape.label, Plan: j.plan.name, Target: j.plan.label, Key: in.key, Refs: in.refs, Placed: pl}
 	// finding keys name the class of the culprit: what is wrong with it, its
 	// structural class, and whether it lies beyond the first 20 references
@@ -704,6 +791,9 @@ func (w *world) runJob(j job) {
 		if in.refs[j.plan.target].Class == clsTreeBlob {
 			ci.culprit = "size-mismatch-held-by-backend@tree-blob"
 		}
+	case "over-limit-backend":
+		// held by the backend only and larger than max_proxy_blob_size: not obtainable
+		ci.culprit = "over-proxy-limit@" + cls
 	case "none":
 		ci.culprit = "nothing-stored"
 	case "random":
@@ -759,6 +849,20 @@ func (w *world) runJob(j job) {
 		}
 	}
 	r.Count("plan." + w.beLabel() + "." + j.plan.name)
+	if w.limit > 0 {
+		ans := "mixed"
+		if anyHit && !anyMiss {
+			ans = "hit"
+		} else if anyMiss && !anyHit {
+			ans = "miss"
+		}
+		lc := "-"
+		if j.plan.target >= 0 {
+			lc = cls
+		}
+		r.Count(fmt.Sprintf("limit.%d.%s.%s.%s", w.limit, j.plan.name, lc, ans))
+		r.Count(fmt.Sprintf("limit.answers.%s.%s", j.plan.name, ans))
+	}
 	if j.plan.label != "" {
 		lab := j.plan.label
 		if i := strings.Index(lab, ":"); i >= 0 && !strings.HasPrefix(lab, "pos") && !strings.HasPrefix(lab, "last") {
@@ -782,13 +886,24 @@ func (w *world) runJob(j job) {
 type cfgSpec struct {
 	storage, impl string
 	backend       bool
+	limit         int64 // max_proxy_blob_size
 }
 
+// The first four configurations take the general shapes; the others (backend
+// with max_proxy_blob_size, zstd / uncompressed in pairs) the limit shapes.
+const generalCfgs = 4
+
 var cfgs = []cfgSpec{
-	{"zstd", "go", false},
-	{"uncompressed", "go", false},
-	{"zstd", "cgo", true},
-	{"uncompressed", "go", true},
+	{"zstd", "go", false, 0},
+	{"uncompressed", "go", false, 0},
+	{"zstd", "cgo", true, 0},
+	{"uncompressed", "go", true, 0},
+	{"zstd", "go", true, 1000},
+	{"uncompressed", "go", true, 1000},
+	{"zstd", "cgo", true, 5000},
+	{"uncompressed", "go", true, 5000},
+	{"zstd", "go", true, 100000},
+	{"uncompressed", "go", true, 100000},
 }
 
 func run(r *lib.Run) {
@@ -798,6 +913,7 @@ func run(r *lib.Run) {
 		"distinct = (config, AR upload path, query path, plan, target position, #files bucket, #dirs, answer) resp. (config, query path, shape, step kind, evicted class)")
 	r.Assume("presence observed via the tag-guarded index snapshot (does not perturb recency) and the harness's own backend (lib.FakeProxy, write-through not stored)")
 	r.Assume("Tree blobs are always parsable (unparsable ones are C14's business)")
+	r.Assume("with max_proxy_blob_size set, a blob larger than the limit counts as present only if held locally (the server neither fetches it from nor looks it up in the backend)")
 
 	t0 := time.Now()
 	nShapes := r.N(28, 320)
@@ -810,20 +926,48 @@ func run(r *lib.Run) {
 		// shapes with many files go to the uncompressed worlds (a zstd-mode upload
 		// costs a 1 MiB buffer per blob, and the storage mode only matters for
 		// reading the Tree blobs)
-		cfg := (i + i/len(fileCounts)*2) % len(cfgs)
+		cfg := (i + i/len(fileCounts)*2) % generalCfgs
 		if i >= 2*len(fileCounts) {
-			cfg = rng.IntN(len(cfgs))
+			cfg = rng.IntN(generalCfgs)
 		}
 		if len(sh.files) > 25 && cfgs[cfg].storage == "zstd" {
-			cfg = (cfg + 1) % len(cfgs)
+			cfg = (cfg + 1) % generalCfgs
 		}
-		probe := build(sh, "probe", rand.New(rand.NewPCG(1, uint64(i))), -1)
+		probe := build(sh, "probe", rand.New(rand.NewPCG(1, uint64(i))), -1, nil)
 		for _, p := range plansFor(probe, cfgs[cfg].backend, rng, r.Quick) {
 			jobs = append(jobs, job{idx: len(jobs), shape: sh, shapeI: i, plan: p, seed: rng.Uint64(), cfg: cfg})
 		}
 	}
+	nGeneral := len(jobs)
+	// Shapes for the worlds with max_proxy_blob_size (own PRNG stream, so the
+	// general case list does not depend on them): file counts on both sides of
+	// the batch of 20, mostly with an output directory, stdout and stderr.
+	nLimit := r.N(12, 96)
+	lrng := r.Rng("limit-shapes")
+	limitCounts := []int{3, 7, 11, 4, 8, 12, 2, 6, 10, 5, 9, 13} // indexes into fileCounts: 3, 21, 41, 7, 25, 45, 2, 20, 40, 19, 39, 60 files
+	for i := 0; i < nLimit; i++ {
+		sh := genShape(lrng, len(fileCounts)+limitCounts[i%len(limitCounts)])
+		if len(sh.trees) == 0 && lrng.IntN(10) < 7 {
+			sh.trees = append(sh.trees, genTree(lrng, []string{"both", "children-only", "root-only"}[lrng.IntN(3)], len(sh.files)))
+			sh.label += "+dir"
+		}
+		if i%2 == 0 {
+			sh.stdout, sh.stderr, sh.stdoutRaw = 1, 1, false
+		}
+		cfg := generalCfgs + (i+i/len(limitCounts))%(len(cfgs)-generalCfgs)
+		if len(sh.files) > 25 && cfgs[cfg].storage == "zstd" {
+			cfg++ // the uncompressed world with the same limit
+		}
+		probe := build(sh, "probe", rand.New(rand.NewPCG(2, uint64(i))), -1, nil)
+		for _, p := range limitPlansFor(probe, lrng, r.Quick) {
+			jobs = append(jobs, job{idx: len(jobs), shape: sh, shapeI: nShapes + i, plan: p, seed: lrng.Uint64(), cfg: cfg})
+		}
+	}
 	r.Extra("presence_pairs", len(jobs))
+	r.Extra("presence_pairs_general", nGeneral)
+	r.Extra("presence_pairs_proxy_limit", len(jobs)-nGeneral)
 	r.Extra("shapes", nShapes)
+	r.Extra("shapes_proxy_limit", nLimit)
 
 	// One world per configuration at a time; worlds are rotated so that index
 	// snapshots stay small.
@@ -845,7 +989,7 @@ func run(r *lib.Run) {
 			defer wg.Done()
 			for start := 0; start < len(mine); start += jobsPerWorld {
 				end := min(start+jobsPerWorld, len(mine))
-				w, err := newWorld(r, cfgs[c].storage, cfgs[c].impl, cfgs[c].backend, 8<<30, "")
+				w, err := newLimitedWorld(r, cfgs[c].storage, cfgs[c].impl, cfgs[c].backend, 8<<30, "", cfgs[c].limit)
 				if err != nil {
 					r.Inconclusive("server start: " + err.Error())
 					return
@@ -895,6 +1039,7 @@ func run(r *lib.Run) {
 			need = append(need, fmt.Sprintf("query.%s.%s.expected-hit.hit", be, q), fmt.Sprintf("query.%s.%s.expected-miss.miss", be, q))
 		}
 	}
+	need = append(need, "limit.answers.over-limit-backend.miss", "limit.answers.at-limit-backend.hit", "limit.answers.over-limit-local.hit")
 	if r.Violations() == 0 {
 		sort.Strings(need)
 		for _, k := range need {
